@@ -166,7 +166,7 @@ def units(tier, seed):
     sch = mc.all_schemes()
     us = []
     for i, s in enumerate(sch):
-        us.append(Unit("scheme_" + "_".join(f"{k}{v}" for k, v in s.items()), "c05:unit_scheme", {"schemes": [s], "n_gen": 200 if T else 25},
+        us.append(Unit("scheme_" + "_".join(f"{k}{v}" for k, v in s.items()), "c05:unit_scheme", {"schemes": [s], "n_gen": 1500 if T else 25},
                        4 if s.get("order", 2) >= 64 or mc.kind(s) != "memoryless" else 1))
     for fam in ("psk", "qam", "pam", "dpsk", "qpsk", "oqpsk", "pi4qpsk"):
         us.append(Unit("cross_instance_" + fam, "c05:unit_cross_instance", {"family": fam}, 2))
